@@ -861,3 +861,112 @@ func RunReadFaults(c *core.Ctx) {
 		c.Cell("read-fault|%s|idx%d|sorted=%v|win=%v", backendClass(backend), nIdx, q.Sorted, q.EffSkip() > 0 || q.EffLimit() >= 0)
 	}
 }
+
+// RunIndexDDLFaults: CreateIndex / DropIndex with one store call failing (every position in turn over the cases).
+// Whatever the call returns, the index is then either fully there or fully gone: the catalog, the raw entries
+// and the answers of queries through a re-created index say the same (C14, C06).
+func RunIndexDDLFaults(c *core.Ctx) {
+	r := c.R
+	backend := gen.Pick(r, []string{BBolt, BBolt, BadgerMem, BadgerDisk})
+	h, err := Open(c, backend, "")
+	if err != nil {
+		c.Violate("open-error", "opening %s failed: %v", backend, err)
+		return
+	}
+	defer h.Destroy()
+	s := NewS(c, h)
+	s.r = r
+	n := gen.Pick(r, []int{2, 6, 15, 40})
+	docs := make([]map[string]any, n)
+	for i := range docs {
+		docs[i] = map[string]any{"_id": fixedID(i + 1), "x": int64(i % 5), "y": int64(100 - i)}
+	}
+	for _, name := range []string{"t", "dry"} {
+		s.CreateCollection(name, nil)
+		s.Insert(name, docs, false)
+		s.CreateIndex(name, "y")
+	}
+	drop := r.Bool()
+	if drop {
+		s.CreateIndex("t", "x")
+		s.CreateIndex("dry", "x")
+	}
+	if s.failed {
+		return
+	}
+	ddl := func(coll string) error {
+		if drop {
+			return h.DB.DropIndex(coll, "x")
+		}
+		return h.DB.CreateIndex(coll, "x")
+	}
+	opName := map[bool]string{true: "DropIndex", false: "CreateIndex"}[drop]
+	// learn the number of faultable store calls on the twin collection
+	h.MS.BeginOp(true)
+	e0 := Do(func() error { return ddl("dry") })
+	st := h.MS.EndOp()
+	if e0 != nil {
+		c.Violate("index-ddl:"+opName, "%s failed without a fault: %v", opName, e0)
+		return
+	}
+	if drop {
+		delete(s.coll("dry").Indexes, "x")
+	} else {
+		s.coll("dry").Indexes["x"] = true
+	}
+	faultable := 0
+	for _, e := range st.Trace {
+		if e.Kind.Faultable() {
+			faultable++
+		}
+	}
+	k := 1 + r.Intn(faultable+1)
+	sticky := r.Bool()
+	h.MS.BeginOp(false)
+	h.MS.SetFault(mon.Fault{Nth: k, Sticky: sticky})
+	e := Do(func() error { return ddl("t") })
+	fst := h.MS.EndOp()
+	c.Eval(1)
+	c.Log("%s(\"t\",\"x\") with faultable store call %d of %d failing (sticky=%v) -> %v", opName, k, faultable, sticky, e)
+	if pe, ok := IsPanic(e); ok {
+		s.viol(PanicSig(pe), "%s panicked when store call %d failed: %v\n%s", opName, k, pe.Val, trim(pe.Stack, 25))
+		return
+	}
+	if fst.TxBegun != fst.TxFinished {
+		s.viol("fault:tx-leak:"+opName, "%s with store call %d failing left %d transaction(s) open", opName, k, fst.TxBegun-fst.TxFinished)
+		return
+	}
+	if e == nil {
+		// reported success (the fault hit a call whose failure the operation may ignore, or was not reached): the effect is complete
+		if drop {
+			delete(s.coll("t").Indexes, "x")
+		} else {
+			s.coll("t").Indexes["x"] = true
+		}
+	}
+	s.HasIndex("t", "x")
+	s.ListIndexes("t")
+	s.AuditPhysical(fmt.Sprintf("%s with a failing store call (returned %v)", opName, e))
+	if s.failed {
+		return
+	}
+	// the field changes, the index is (re-)created, queries go through it
+	s.UpdateById("t", fixedID(1), &Upd{Name: "set", Set: map[string]any{"x": int64(77)}})
+	s.Bulk(BulkUpdateMap, &model.Query{Coll: "t", Crit: cmpc(model.OpEq, "x", int64(2))}, &Upd{Name: "set", Set: map[string]any{"x": int64(-2)}})
+	if !s.coll("t").Indexes["x"] {
+		s.CreateIndex("t", "x")
+	}
+	s.FindAll(&model.Query{Coll: "t", Sorted: true, Sort: []model.SortOpt{{Field: "x", Dir: 1}}})
+	s.Count(&model.Query{Coll: "t", Crit: cmpc(model.OpGtEq, "x", int64(-5))})
+	s.FindAll(&model.Query{Coll: "t", Crit: cmpc(model.OpLt, "x", int64(3)), Sorted: true, Sort: []model.SortOpt{{Field: "x", Dir: -1}}})
+	s.Audit("index DDL under a store fault, then re-creation")
+	if !s.failed {
+		pos := "middle"
+		if k == 1 {
+			pos = "first"
+		} else if k >= faultable {
+			pos = "last-or-beyond"
+		}
+		c.Cell("index-ddl-fault|%s|%s|returned-error=%v|%s", opName, pos, e != nil, backendClass(backend))
+	}
+}
